@@ -60,11 +60,16 @@ CLAIMS = {
   "note": "Ordered-map behaviour itself is NOT decided (values). Observation (not a rule): previous_key is cleared at a block flush, so the guard is vacuous for the first key of each block.",
   "technique": "MIR of a second build configuration (debug assertions off), dominance of a guard switch, constant agreement",
  },
+ "C06": {
+  "text": "Narrow: decides the ordering precondition on which deterministic tie-breaking rests and the single-comparator discipline. TopNComputer/TopNHeap document that items must be pushed in ascending document order; every one of their call sites must either push its own DocSet-driven `doc` parameter / iterate its `docs` block in order, or be dominated by a sort of its input by document address (the cross-segment merge); every sort/select in the top-K code orders by compare_for_top_k (key reversed, then ascending doc); the offset is applied after the global merge and the merge buffer holds offset+limit hits. Exactness under block-max WAND and float sums is not decided.",
+  "note": "NOT decided: pruning thresholds, block-max bounds, score sums (values); that DocSets emit ascending docs (C13).",
+  "technique": "who-may-call table with a per-site ordering argument (parameter provenance or dominating sort), comparator closure inspection",
+ },
 }
 NA = {
  "C13": "quantifies over values returned by arbitrary advance/seek programs on stateful iterators; failures are arithmetic; the only structural statement (wrapper forwarding) is not a necessary condition, so no sound static rule is in reach",
  "C14": "aggregation results are run-time numeric values (bucket arithmetic, float sums, sketches); structural parts are already enforced by derive and the compiler",
 }
 # properties not yet claimed (checks under construction) are listed as not applicable *for now*
-for _p, _why in {'C02': 'check under construction in this session (rules designed in DESIGN.md section 4; not yet registered)', 'C03': 'check under construction in this session (rules designed in DESIGN.md section 4; not yet registered)', 'C04': 'check under construction in this session (rules designed in DESIGN.md section 4; not yet registered)', 'C06': 'check under construction in this session (rules designed in DESIGN.md section 4; not yet registered)', 'C12': 'check under construction in this session (rules designed in DESIGN.md section 4; not yet registered)', 'C17': 'check under construction in this session (rules designed in DESIGN.md section 4; not yet registered)', }.items():
+for _p, _why in {'C02': 'check under construction in this session (rules designed in DESIGN.md section 4; not yet registered)', 'C03': 'check under construction in this session (rules designed in DESIGN.md section 4; not yet registered)', 'C04': 'check under construction in this session (rules designed in DESIGN.md section 4; not yet registered)', 'C12': 'check under construction in this session (rules designed in DESIGN.md section 4; not yet registered)', 'C17': 'check under construction in this session (rules designed in DESIGN.md section 4; not yet registered)', }.items():
     NA[_p] = _why
